@@ -176,7 +176,13 @@ theorem backupPrelude_csat (w : World) (hw : CWOK H w) :
     intro basisBand w2 hf2 _
     apply CSat.bind
     refine (bandCreate_csat w2 hf2.wok).mono ?_
-    intro band w3 hf3 hband
+    intro band w3' hf3' hband'
+    apply CSat.bind
+    refine (CSat.of_ro Inv.gcLockListed_ro hf3'.wok).mono ?_
+    intro locked2 w3 hf3 hst3
+    split
+    · exact CSat.fail hf3.wok
+    have hband : BandOpen w3.store band [] := by rw [hst3]; exact hband'
     apply CSat.bind
     refine ((CSat.of_ro Inv.listBlocks_ro hf3.wok).and_run (Q' := fun hs _ => ExistsOK H w3.store hs)
       (listBlocks_result w3 hf3.ci.nodup hf3.wok.toWOK.good.blocks)).mono ?_
